@@ -19,7 +19,8 @@ EXPLANATION = (
 RULES = {
     "C04-X1": "read_by_extension and write_by_extension have the same key set, normalise the extension identically and pair "
               "import_K / export_K from the same module; load/save route through them; the class table of "
-              "_instanciate_raw_mesh_data maps dimension 0..3 to PointCloud/PolyLine/SurfaceMesh/VolumeMesh",
+              "_instanciate_raw_mesh_data maps dimension 0..3 to PointCloud/PolyLine/SurfaceMesh/VolumeMesh; save() prepares the cell "
+              "adjacency exactly for (VolumeMesh, geogram file) and empties a container only when its kind is in ignore_elements",
     "C04-B1": "the offset a writer adds to every vertex index is the index base of the format and the reader subtracts the same",
     "C04-E1": "for each (keyword|tag, element kind) the arity the writer emits equals the arity the reader parses, the reader "
               "appends to the kind the writer iterated, and every keyword/tag/chunk name written is one the reader recognises",
@@ -29,12 +30,15 @@ RULES = {
     "C04-L1": "every coordinate written by a text exporter is rendered with an empty format spec (str / '{}' / bare f-string) "
               "and parsed back with float()",
     "C04-A1": "attribute type table: from_string(quote(to_string(T))) == T and byte_size(T) is an int for every member T; "
-              "Bool values are written in the integer form the reader parses",
+              "Bool values are written through int() (the reader parses bool(int())), Int/Float values never are",
     "C04-C1": "every element kind a format can express is written under conditions (dimensionality, completion switches, "
               "container emptiness, hard-edge flag) that cover every mesh state in which a load would not regenerate it: all "
               "edges of a polyline or when edges are not completed from faces, at least the declared (hard) edges otherwise",
     "C04-G1": "geogram [ATTR] chunk: the header field written on line i is the one the reader takes from line i, the payload "
-              "is dense (one group of `arity` values per element, element-major) and indexed with the same stride",
+              "is dense (one group of `arity` values per element, element-major) and indexed with the same stride; the importer stores "
+              "every group unfiltered (arity > 1) or the scalar (arity 1); *_ptr size chunks: exporter writes the running corner offset "
+              "exactly when some element departs from the importer's default size, importer takes consecutive differences; every "
+              "attribute of a container is exported",
 }
 
 ASSUMPTIONS = [
